@@ -102,6 +102,14 @@ def evaluate(node, env):
                         rec(i + 1, e2)
             rec(0, env)
             return set(out) if isinstance(n, ast.SetComp) else out
+        if isinstance(n, ast.Call) and isinstance(n.func, ast.Name) and n.func.id in ("max", "min") and n.keywords \
+                and all(k.arg == "default" for k in n.keywords):
+            try:
+                return _FUNCS[n.func.id](*[ev(a, env) for a in n.args], default=ev(n.keywords[0].value, env))
+            except CannotEvaluate:
+                raise
+            except Exception as e:  # noqa: BLE001
+                raise CannotEvaluate(f"{n.func.id} raised {type(e).__name__}") from e
         if isinstance(n, ast.Call) and isinstance(n.func, ast.Name) and not n.keywords:
             if n.func.id == "isinstance" and len(n.args) == 2:
                 t = n.args[1]
